@@ -501,6 +501,15 @@ func check(r *result, f faultSpec, durable bool) (sig, desc string) {
 				opFailed = true
 			}
 		}
+		// a store operation that fails of its own accord for another reason than an ended context,
+		// in a history without any injected fault, is the store refusing a legitimate call
+		if f.Kind == "none" {
+			for _, op := range r.ops {
+				if op.Own != "" && !strings.Contains(op.Own, "context") {
+					return kf("store-operation-failed-without-fault", false), fmt.Sprintf("fault-free history: store operation #%d %s(%s) failed: %s", op.N, op.Kind, op.Arg, op.Own)
+				}
+			}
+		}
 		if f.Kind == "none" && !opFailed {
 			for eid, c := range count {
 				if c != 1 {
@@ -570,7 +579,7 @@ func TestC12(t *testing.T) {
 		kind string
 		n    int
 	}
-	cfgs := []cfg{{"memory", run.Scale(10, 120)}, {"memory+memsub", run.Scale(6, 60)}, {"memory-paged+memsub", run.Scale(6, 60)}, {"memory-capped+memsub", run.Scale(5, 50)}, {"sqlite-file", run.Scale(1, 8)}, {"sqlite-batch2", run.Scale(1, 6)}, {"durable+memsub", run.Scale(1, 4)}}
+	cfgs := []cfg{{"memory", run.Scale(10, 120)}, {"memory+memsub", run.Scale(6, 60)}, {"memory-paged+memsub", run.Scale(6, 60)}, {"memory-capped+memsub", run.Scale(5, 50)}, {"sqlite-file", run.Scale(1, 8)}, {"sqlite-batch2", run.Scale(1, 6)}, {"durable+memsub", run.Scale(1, 4)}, {"sqlite-file+memsub", run.Scale(2, 6)}}
 	caseNo := 0
 	for _, c := range cfgs {
 		for h := 0; h < c.n; h++ {
